@@ -137,7 +137,7 @@ def is_setup_line(s):
     return bool(SETUP_RE.search(re.sub(r"\s*#.*$", "", s))) and not BLANK_RE.search(s)
 
 
-def decorate(rng, lines):
+def decorate(rng, lines, flavors=(FLAVOR, FLAVOR, "Darwin")):
     """spread the setup lines of a table over several blocks, add comments / blanks / brace blocks"""
     out = []
     k = 0
@@ -152,7 +152,7 @@ def decorate(rng, lines):
                 k += 1
                 out.append(rng.choice(OTHER_LINES) % k)
             if rng.random() < 0.15:
-                out.append("if (flavor == %s) {" % rng.choice([FLAVOR, FLAVOR, "Darwin"]))
+                out.append("if (flavor == %s) {" % rng.choice(list(flavors)))
                 out.append("   " + ln + ("   # why" if rng.random() < 0.3 else ""))
                 if rng.random() < 0.3:
                     out.append("")
@@ -168,8 +168,47 @@ def decorate(rng, lines):
     return out
 
 
+def failing_line(rng, name):
+    """a table line on which the setup of product name fails - after its SETUP_ variable was recorded, and after the
+    lines in front of it were executed: an environment variable that is not defined, or a required dependency that
+    cannot be found"""
+    up = name.upper()
+    return rng.choice(["envSet(%s_CONF, ${%s_SITE_DIR}/conf)" % (up, up),
+                       "envSet(%s_CONF, ${%s_SITE_DIR}/conf)" % (up, up),
+                       "envPrepend(PATH, ${%s_SITE_DIR}/bin)" % up,
+                       "envAppend(LD_LIBRARY_PATH, ${C17_NOT_DEFINED})",
+                       "setupRequired(zz)", "setupRequired(zz 1.0)", "setupRequired(zz -j)",
+                       "setupRequired(p1 9.9)" if name != "p1" else "setupRequired(zz)",
+                       "setupRequired(p1 9.9 [>= 9.0])" if name != "p1" else "setupRequired(zz)"])
+
+
+def sabotage(rng, world, top):
+    """make the setup of one product below top fail part-way (in some or all of its versions), and most of the lines
+    that ask for it optional: the dependency is started, recorded, and rolled back"""
+    names = sorted(world["products"])
+    below = [n for n in names if n < top]
+    if not below:
+        return None
+    victim = rng.choice(below)
+    vs = sorted(world["products"][victim])
+    hit = [v for v in vs if rng.random() < 0.75] or [rng.choice(vs)]
+    for v in hit:
+        lines = world["products"][victim][v]
+        bad = failing_line(rng, victim)
+        lines.insert(rng.randrange(len(lines) + 1) if rng.random() < 0.6 else len(lines), bad)
+    for n in names:
+        if n <= victim:
+            continue
+        for v, lines in world["products"][n].items():
+            for i, ln in enumerate(lines):
+                if re.match(r"setupRequired\(%s[ )]" % victim, ln) and rng.random() < 0.85:
+                    lines[i] = "setupOptional" + ln[len("setupRequired"):]
+    return victim
+
+
 def gen_case(rng):
     world = setupsim.gen_world(rng, nprod=rng.choice([3, 4, 5, 5]))
+    world["generic"] = []           # one flavor (see ctx.assumptions): no product declared under the fall-back flavor
     names = sorted(world["products"])
     # the top product: prefer one that has setup lines
     cands = [(n, v) for n in names for v in sorted(world["products"][n])
@@ -179,6 +218,8 @@ def gen_case(rng):
     else:
         top = rng.choice(names)
         topv = rng.choice(sorted(world["products"][top]))
+    if rng.random() < 0.2:
+        sabotage(rng, world, top)
     lines = list(world["products"][top][topv])
     # a few extra forms on the top table: relative versions, an unknown product, a second mention
     others = [n for n in names if n < top]            # lower products only: the graph stays acyclic
@@ -248,6 +289,80 @@ def gen_shared_case(rng):
     return {"world": world, "top": "p5", "topv": v5, "plist": {}, "force": False, "evolve": ops}
 
 
+def gen_failed_optional_case(rng):
+    """directed family: an optional dependency whose own setup fails part-way, at depth 1, 2 or 3 below the top product.
+        p1  shared leaf          p2  needed only by p3          p3  the product whose table cannot be executed to the end
+        p7 (top) -> p4, p5;  p5 -> p1;  p4 -> p1 and (p3 | p6 -> p3);  or p7 -> p3 directly
+    One link of the chain from the top product down to p3 is optional, the links below it are (mostly) required: the
+    failure of p3 (undefined ${VARIABLE}, or a required product that does not exist) travels up to that link, and
+    everything that was set up below it - recorded in SETUP_ variables on the way - is rolled back."""
+    P = "envPrepend(PATH, ${PRODUCT_DIR}/bin)"
+    v = {n: rng.choice(setupsim.VERSIONS) for n in ("p1", "p2", "p3", "p4", "p5", "p6", "p7")}
+
+    def link(kind, name):
+        return "%s(%s%s)" % (kind, name, rng.choice(["", "", " " + v[name]]))
+    depth = rng.choice([1, 2, 2, 3])
+    chain = {1: ["p7", "p3"], 2: ["p7", "p4", "p3"], 3: ["p7", "p4", "p6", "p3"]}[depth]
+    k = rng.randrange(len(chain) - 1)                   # the optional link: chain[k] -> chain[k + 1]
+    kinds = []
+    for i in range(len(chain) - 1):
+        if i == k:
+            kinds.append("setupOptional")
+        elif i < k:
+            kinds.append(rng.choice(["setupRequired", "setupRequired", "setupOptional"]))
+        else:
+            kinds.append(rng.choice(["setupRequired"] * 4 + ["setupOptional"]))
+    tables = {n: [P] for n in v}
+    if rng.random() < 0.4:
+        tables["p1"].append("envSet(P1_HOME, ${PRODUCT_DIR}/home)")
+    if rng.random() < 0.5:
+        tables["p2"].append("setupRequired(p1)")
+    tables["p5"].append(link("setupRequired", "p1"))
+    tables["p4"].append(link("setupRequired", "p1"))
+    tables["p7"].append(link("setupRequired", "p5"))
+    if depth == 1:
+        tables["p7"].append(link("setupRequired", "p4"))
+    if rng.random() < 0.3:
+        tables["p6"].append(link("setupRequired", "p1"))
+    # p3: its own dependencies, some lines of its own, and the line that fails
+    x = [P]
+    if rng.random() < 0.7:
+        x.append(link("setupRequired", "p1"))
+    if rng.random() < 0.6:
+        x.append(link(rng.choice(["setupRequired", "setupOptional"]), "p2"))
+    if rng.random() < 0.4:
+        x.append("addAlias(run_p3, echo p3)")
+    if rng.random() < 0.4:
+        x.append("envSet(P3_HOME, ${PRODUCT_DIR}/home)")
+    rng.shuffle(x)
+    x.insert(rng.randrange(len(x) + 1) if rng.random() < 0.5 else len(x), failing_line(rng, "p3"))
+    tables["p3"] = x
+    for i in range(len(chain) - 1):
+        t = tables[chain[i]]
+        t.insert(rng.randrange(1, len(t) + 1), link(kinds[i], chain[i + 1]))
+    if depth > 1 and rng.random() < 0.25:               # the top table names the failing product as well
+        tables["p7"].insert(rng.randrange(1, len(tables["p7"]) + 1), link("setupOptional", "p3"))
+    used = {"p1", "p2", "p3", "p4", "p5", "p7"} | ({"p6"} if depth == 3 else set())
+    prods = {n: {v[n]: tables[n]} for n in sorted(used)}
+    prods["p7"][v["p7"]] = decorate(rng, tables["p7"], flavors=(FLAVOR,))
+    if rng.random() < 0.4:
+        other = rng.choice([u for u in setupsim.VERSIONS if u != v["p1"]])
+        prods["p1"][other] = [P]
+    if rng.random() < 0.3:                              # another version of p3 that could be set up, not current
+        other = rng.choice([u for u in setupsim.VERSIONS if u != v["p3"]])
+        prods["p3"][other] = [P]
+    world = {"root": "stack", "products": prods, "current": {n: v[n] for n in prods}}
+    ops = []
+    for n in sorted(prods):
+        r = rng.random()
+        if r < 0.5:
+            ops.append({"op": "declare", "name": n, "version": "4.0", "lines": [P], "current": rng.random() < 0.8})
+        elif r < 0.6:
+            ops.append({"op": "uncurrent", "name": n})
+    rng.shuffle(ops)
+    return {"world": world, "top": "p7", "topv": v["p7"], "plist": {}, "force": False, "evolve": ops}
+
+
 # ------------------------------------------------------------------ implementation (runs in a forked child)
 
 def _fresh_eups(eups, **kw):
@@ -255,15 +370,16 @@ def _fresh_eups(eups, **kw):
     return eups.Eups(quiet=1, setupType=[], **kw)
 
 
-def _parse_world(eups, e, products):
-    """what the real table parser makes of every declared product (model world)"""
+def _parse_world(eups, e, products, world):
+    """what the real table parser makes of every declared product (model world); a version declared after the world
+    was built (EVOLVE) lives under the running flavor"""
     parsed = {}
     for name, vs in products.items():
         for v in vs:
-            p = e.findProduct(name, v)
+            p = e.findProduct(name, v, flavor=(setupsim.flavor_of(world, name) if v in world["products"][name] else FLAVOR))
             tbl = p.getTable()
             acts = tbl.actions(FLAVOR, setupType=e.setupType) if tbl else []
-            parsed["%s %s" % (name, v)] = {"dir": p.dir, "actions": setupsim.model_actions(acts)}
+            parsed["%s %s" % (name, v)] = {"dir": p.dir, "flavor": p.flavor, "actions": setupsim.model_actions(acts)}
     return parsed
 
 
@@ -285,9 +401,21 @@ def run_case(case):
         E = eups.Eups
         spied_setup = E.setup
 
+        rolled_back = []            # forward calls that found their product, recorded it, and then failed
+
         def setup(self, productName, versionName=None, fwd=True, *a, **k):
             calls.append([productName, bool(fwd)])
-            return spied_setup(self, productName, versionName, fwd, *a, **k)
+            idx = len(log)          # where the decision spy notes the version this call decides on
+            depth = a[0] if a else k.get("recursionDepth", 0)
+            try:
+                r = spied_setup(self, productName, versionName, fwd, *a, **k)
+            except Exception:
+                if fwd and idx < len(log) and log[idx] is not None:
+                    rolled_back.append([productName, log[idx], depth])
+                raise
+            if fwd and not r[0] and idx < len(log) and log[idx] is not None:
+                rolled_back.append([productName, log[idx], depth])
+            return r
         E.setup = setup
 
         # ---- BUILD
@@ -299,48 +427,67 @@ def run_case(case):
             ok, version, reason = e.setup(top, topv)
         except Exception as ex:  # noqa
             ok = False
+        # what is really set up now: the SETUP_ variables of the environment the setup left behind (a failed optional
+        # dependency was rolled back; whatever the instance remembers about it is not "set up")
         benv = dict(os.environ) if ok else dict(base)
         out["build"] = {"ok": bool(ok), "env": benv, "records": setupsim.setup_records(benv),
-                        "reverse_calls": [c[0] for c in calls if not c[1]], "decisions": list(log)}
+                        "reverse_calls": [c[0] for c in calls if not c[1]], "decisions": list(log),
+                        "aliases": dict(e.aliases), "rolled_back": [x for x in rolled_back if x[2] > 0]}
         if not ok:
             return out
+        text_in = "\n".join(world["products"][top][topv]) + "\n"
 
-        # ---- EXPAND
+        def raw_deps(e):
+            raw = {}
+            for ln in world["products"][top][topv]:
+                try:
+                    c = classify(ln)
+                except OutOfGrammar:
+                    continue
+                if c[0] != "S":
+                    continue
+                n = c[2]
+                v = case["plist"].get(n) or e.findSetupVersion(n)[0]
+                if v and ("%s %s" % (n, v)) not in raw:
+                    try:
+                        deps = eups.getDependencies(n, v, e, setup=False)
+                        raw["%s %s" % (n, v)] = [[d[0], bool(d[2]), int(d[3])] for d in deps]
+                    except Exception as ex:  # noqa
+                        raw["%s %s" % (n, v)] = "raise:" + type(ex).__name__
+            return raw
+
+        def expand(e):
+            ofd = io.StringIO()
+            try:
+                eups.expandTableFile(ofd, io.StringIO(text_in), dict(case["plist"]), None, e, bool(case["force"]),
+                                     toplevelName=top)
+                return {"text": ofd.getvalue()}
+            except Exception as ex:  # noqa
+                return {"raise": type(ex).__name__, "msg": str(ex)[:300]}
+
+        # ---- EXPAND, python API protocol: the instance that did the setup expands the table, in the environment
+        #      that setup left (first the expansion, on the instance exactly as the setup left it; then the dependency
+        #      lists that instance reports, for the model)
+        out["expand_same"] = expand(e)
+        out["env_after_expand_same"] = setupsim.setup_records(dict(os.environ))
+        os.environ.clear()
+        os.environ.update(benv)
+        out["rawdeps_same"] = raw_deps(e)
+
+        # ---- EXPAND, command-line protocol (eups expandtable): a fresh instance in the build environment
         os.environ.clear()
         os.environ.update(benv)
         e = _fresh_eups(eups)
         e.selectVRO(None, None, None, None)
         products0 = {n: sorted(vs) for n, vs in world["products"].items()}
-        out["parsed0"] = _parse_world(eups, e, products0)
-        text_in = "\n".join(world["products"][top][topv]) + "\n"
-        raw = {}
-        for ln in world["products"][top][topv]:
-            try:
-                c = classify(ln)
-            except OutOfGrammar:
-                continue
-            if c[0] != "S":
-                continue
-            n = c[2]
-            v = case["plist"].get(n) or e.findSetupVersion(n)[0]
-            if v and ("%s %s" % (n, v)) not in raw:
-                try:
-                    deps = eups.getDependencies(n, v, e, setup=False)
-                    raw["%s %s" % (n, v)] = [[d[0], bool(d[2]), int(d[3])] for d in deps]
-                except Exception as ex:  # noqa
-                    raw["%s %s" % (n, v)] = "raise:" + type(ex).__name__
-        out["rawdeps"] = raw
+        out["parsed0"] = _parse_world(eups, e, products0, world)
+        out["rawdeps"] = raw_deps(e)
         os.environ.clear()
         os.environ.update(benv)
         e = _fresh_eups(eups)
         e.selectVRO(None, None, None, None)
-        ofd = io.StringIO()
-        try:
-            eups.expandTableFile(ofd, io.StringIO(text_in), dict(case["plist"]), None, e, bool(case["force"]),
-                                 toplevelName=top)
-            out["expand"] = {"text": ofd.getvalue()}
-        except Exception as ex:  # noqa
-            out["expand"] = {"raise": type(ex).__name__, "msg": str(ex)[:300]}
+        out["expand"] = expand(e)
+        if "raise" in out["expand"]:
             return out
 
         # ---- EVOLVE
@@ -364,7 +511,7 @@ def run_case(case):
                     e.unassignTag("current", n)
             except Exception as ex:  # noqa  (e.g. untagging a product that has no current version)
                 pass
-        with open(os.path.join(stack, FLAVOR, top, topv, "ups", top + ".table"), "w") as f:
+        with open(os.path.join(stack, setupsim.flavor_of(world, top), top, topv, "ups", top + ".table"), "w") as f:
             f.write(out["expand"]["text"])
 
         # ---- REPLAY in exact mode
@@ -373,7 +520,7 @@ def run_case(case):
         e = _fresh_eups(eups, exact_version=True)
         e.selectVRO(None, None, topv, None)
         out["exact_flag"] = bool(e.exact_version)
-        out["parsed1"] = _parse_world(eups, e, products1)
+        out["parsed1"] = _parse_world(eups, e, products1, world)
         os.environ.clear()
         os.environ.update(base)
         del log[:]
@@ -447,21 +594,11 @@ def constraint(c):
     return version, logical
 
 
-def oracle(case, res):
-    """the property's clauses on the real outputs; yields (kind, expected, observed, what)"""
-    b = res["build"]
-    built = b["records"]
-    conflict_free = not b["reverse_calls"]
-    x = res.get("expand")
-    if x is None:
-        return
+def oracle_text(case, built, text):
+    """the clauses that speak about the expanded text alone: (1) pins, (2) other lines, (3) non-exact branch"""
     top, topv = case["top"], case["topv"]
-    if "raise" in x:
-        # the property speaks about tables that were expanded: a refusal to expand (a required line whose product is
-        # not set up, a required dependency of a set-up product that is not set up) is counted, not judged
-        return
     in_lines = case["world"]["products"][top][topv]
-    lines = norm_text(x["text"])
+    lines = norm_text(text)
     pins, inexact, exact, ok = split_views(lines)
     if not ok:
         yield ("other-lines", None, lines, "the generated blocks of the expanded table do not close")
@@ -511,6 +648,39 @@ def oracle(case, res):
             if gversion is not None and gversion not in (version, case["plist"].get(name), built.get(name)):
                 yield ("inexact", w[7], g, "the rewritten line names version %s, neither the original one nor the "
                        "set-up one" % gversion)
+
+
+PROTOCOLS = (("expand", "rawdeps", "eups expandtable (fresh instance)"),
+             ("expand_same", "rawdeps_same", "python API (the instance that did the setup)"))
+
+
+def oracle(case, res):
+    """the property's clauses on the real outputs; yields (kind, expected, observed, what)"""
+    b = res["build"]
+    # what was set up at expansion time: the SETUP_ variables of the environment after the setup
+    built = b["records"]
+    conflict_free = not b["reverse_calls"]
+    if res.get("expand") is None:
+        return
+    top, topv = case["top"], case["topv"]
+    if res.get("env_after_expand_same", built) != built:
+        yield ("expansion-changes-setup", built, res["env_after_expand_same"],
+               "expanding the table changed what is set up")
+    judged = []
+    for key, _rawkey, proto in PROTOCOLS:
+        x = res.get(key)
+        if x is None or "raise" in x:
+            # the property speaks about tables that were expanded: a refusal to expand (a required line whose product
+            # is not set up, a required dependency of a set-up product that is not set up) is counted, not judged
+            continue
+        if x["text"] in judged:             # both protocols wrote the same text: judged once
+            continue
+        judged.append(x["text"])
+        for kind, expected, observed, what in oracle_text(case, built, x["text"]):
+            yield (kind, expected, observed, "%s [%s]" % (what, proto))
+    x = res["expand"]
+    if "raise" in x:
+        return
     # (4) exact mode reproduces the build
     r = res.get("replay")
     if r is not None and conflict_free and not case["plist"]:
@@ -531,7 +701,7 @@ def oracle(case, res):
 
 # ------------------------------------------------------------------ model side
 
-def expand_line(case, res):
+def expand_line(case, res, rawkey="rawdeps"):
     top, topv = case["top"], case["topv"]
     prods = []
     for key, info in sorted(res["parsed0"].items()):
@@ -539,7 +709,7 @@ def expand_line(case, res):
         prods.append("%s:%s:%s:%s" % (enc(name), enc(v), enc(info["dir"]), "+".join(info["actions"])))
     lines = [enc_line(classify(ln)) for ln in case["world"]["products"][top][topv]]
     raw = []
-    for key, deps in sorted(res["rawdeps"].items()):
+    for key, deps in sorted(res[rawkey].items()):
         name, v = key.split(" ")
         if isinstance(deps, str):
             raise OutOfGrammar("getDependencies raised")
@@ -585,6 +755,7 @@ def forced_decisions(res, top, topv):
 
 def evaluate(ctx, cases, results):
     exp_lines, exp_idx = [], []
+    bld_lines, bld_idx = [], []
     rep_lines, rep_idx = [], []
     for i, (c, r) in enumerate(zip(cases, results)):
         if r[0] != "ok":
@@ -597,11 +768,36 @@ def evaluate(ctx, cases, results):
             conflict = bool(b["reverse_calls"])
             shape = ("conflict" if conflict else "clean") + ("/raise" if "raise" in x else "/ok") + \
                     ("/plist" if c["plist"] else "") + ("/force" if c["force"] else "")
-            try:
-                exp_lines.append(expand_line(c, res))
-                exp_idx.append(i)
-            except OutOfGrammar:
-                ctx.bump("out-of-grammar")
+            rb = b.get("rolled_back") or []
+            if rb:
+                # an optional dependency was started (SETUP_ variable recorded) and rolled back: directly below the top
+                # product (depth 1) or deeper
+                ctx.bump("optional-rolled-back@depth-%s" % ("1" if min(d for _n, _v, d in rb) == 1 else "2+"))
+                if any(b["records"].get(n) != v for n, v, _d in rb):
+                    ctx.bump("optional-rolled-back-and-not-set-up-at-expansion")
+                shape += "/rollback"
+            same = res.get("expand_same")
+            if same is not None and ("raise" in same) == ("raise" in x) and \
+                    ("raise" in x or norm_text(same["text"]) == norm_text(x["text"])):
+                ctx.bump("protocols-agree")
+            elif same is not None:
+                ctx.bump("protocols-differ")
+            if res.get("rawdeps_same") != res.get("rawdeps"):
+                ctx.bump("dependency-lists-differ-between-instances")
+            for key, rawkey, _proto in PROTOCOLS:
+                if res.get(key) is None:
+                    continue
+                try:
+                    exp_lines.append(expand_line(c, res, rawkey))
+                    exp_idx.append((i, key))
+                except OutOfGrammar:
+                    ctx.bump("out-of-grammar")
+            # the build itself through Model/Setup.v (decisions of the real resolver fed): the environment the expansion
+            # reads is the final environment of the Setup model, failed optional dependencies rolled back
+            rec = {"request": {"name": c["top"], "fwd": True}, "before": res["base"], "decisions": b["decisions"],
+                   "after": b["env"], "aliases": b["aliases"], "ok": True, "outcome": "ok"}
+            bld_lines.append(setupsim.model_line(c["world"], {"parsed": res["parsed0"], "stack": res["stack"]}, rec))
+            bld_idx.append((i, rec))
             if "replay" in res:
                 ds, leak = forced_decisions(res, c["top"], c["topv"])
                 if leak:
@@ -621,29 +817,37 @@ def evaluate(ctx, cases, results):
                                             if b["ok"] and nsetup >= 2 else None))
         for kind, expected, observed, what in oracle(c, res):
             ctx.fail(kind, shrink_view(c, res), expected=expected, observed=observed, what=what)
-    mout = ctx.model(exp_lines + rep_lines)
-    for i, ln in zip(exp_idx, mout[:len(exp_lines)]):
+    mout = ctx.model(exp_lines + bld_lines + rep_lines)
+    for (i, key), ln in zip(exp_idx, mout[:len(exp_lines)]):
         c, res = cases[i], results[i][1]
         m = expand_result(ln)
-        x = res["expand"]
+        x = res[key]
         impl = {"raise": "raise"} if "raise" in x else {"text": norm_text(x["text"])}
         if "raise" in m:
             m = {"raise": "raise"}
         if m != impl:
-            ctx.disagree(shrink_view(c, res), m, impl if "text" in impl else x, where="expanded text")
-    for (i, rec, ds), ln in zip(rep_idx, mout[len(exp_lines):]):
+            ctx.disagree(shrink_view(c, res, key), m, impl if "text" in impl else x,
+                         where="expanded text" + (" (python API protocol)" if key == "expand_same" else ""))
+    for (i, rec), ln in zip(bld_idx, mout[len(exp_lines):len(exp_lines) + len(bld_lines)]):
         c, res = cases[i], results[i][1]
         ctx.traces_validated += 1
-        if res["replay"]["decisions"] != ds:
+        setupsim.compare(ctx, c["world"], {"parsed": res["parsed0"], "stack": res["stack"]}, rec, setupsim.model_result(ln))
+    for (i, rec, ds), ln in zip(rep_idx, mout[len(exp_lines) + len(bld_lines):]):
+        c, res = cases[i], results[i][1]
+        ctx.traces_validated += 1
+        real = res["replay"]["decisions"]
+        # a replay that stops part-way (a productList version whose table cannot be executed) consumed a prefix
+        if (real != ds) if res["replay"]["ok"] else (ds[:len(real)] != real):
             ctx.disagree(shrink_view(c, res), {"forced decisions": ds}, {"real decisions": res["replay"]["decisions"]},
                          where="exact-mode decisions")
         setupsim.compare(ctx, c["world"], {"parsed": res["parsed1"], "stack": res["stack"]}, rec, setupsim.model_result(ln))
 
 
-def shrink_view(c, res):
+def shrink_view(c, res, key="expand"):
     """the case as written to replays / the corpus (re-runnable), with the top table in front"""
     return {"top": c["top"], "topv": c["topv"], "table": c["world"]["products"][c["top"]][c["topv"]],
-            "built": res["build"]["records"], "expanded": (res.get("expand") or {}).get("text"),
+            "built": res["build"]["records"], "expanded": (res.get(key) or {}).get("text"),
+            "expanded_by_the_instance_that_did_the_setup": (res.get("expand_same") or {}).get("text"),
             "plist": c["plist"], "force": c["force"], "evolve": c["evolve"], "world": c["world"]}
 
 
@@ -783,7 +987,8 @@ def run(ctx):
     cases = corpus_cases()
     n = ctx.size(640, 5000)
     for k in range(n):
-        cases.append(gen_shared_case(ctx.rng) if k % 16 == 7 else gen_case(ctx.rng))
+        cases.append(gen_shared_case(ctx.rng) if k % 16 == 7 else
+                     gen_failed_optional_case(ctx.rng) if k % 8 == 3 else gen_case(ctx.rng))
     for c in cases[:2]:
         ctx.sample({"top": c["top"], "topv": c["topv"], "table": c["world"]["products"][c["top"]][c["topv"]]})
     step = 2000
